@@ -99,6 +99,8 @@ impl TxPoolService {
         entry: TxEntry,
         mut status: TxStatus,
     ) -> (Result<(), Reject>, Arc<Snapshot>) {
+        #[cfg(ckb_verif)]
+        ckb_util::verif::point("pool::before_submit_lock");
         let (ret, snapshot) = self
             .with_tx_pool_write_lock(move |tx_pool, snapshot| {
                 // check_rbf must be invoked in `write` lock to avoid concurrent issues.
@@ -776,6 +778,12 @@ impl TxPoolService {
             .iter()
             .map(|blk| blk.header().hash())
             .collect();
+        #[cfg(ckb_verif)]
+        let detached_headers_in_order: Vec<Byte32> =
+            detached_blocks.iter().map(|blk| blk.hash()).collect();
+        #[cfg(ckb_verif)]
+        let attached_headers_in_order: Vec<Byte32> =
+            attached_blocks.iter().map(|blk| blk.hash()).collect();
 
         for blk in detached_blocks {
             detached.extend(blk.transactions().into_iter().skip(1))
@@ -793,9 +801,20 @@ impl TxPoolService {
         //
         // At present, there is only one situation:
         // - If the hardfork was happened, then re-process all transactions.
+        #[cfg(ckb_verif)]
+        let verif_reorg = crate::verif::VerifReorg {
+            detached: detached_headers_in_order,
+            attached: attached_headers_in_order,
+            detached_proposal_ids: detached_proposal_id.iter().cloned().collect(),
+            snapshot_tip: snapshot.tip_hash(),
+        };
+        #[cfg(ckb_verif)]
+        ckb_util::verif::point("pool::before_reorg_lock");
         {
             // This closure is used to limit the lifetime of mutable tx_pool.
             let mut tx_pool = self.tx_pool.write().await;
+            #[cfg(ckb_verif)]
+            tx_pool.verif_reorg_log.push(verif_reorg);
 
             _update_tx_pool_for_reorg(
                 &mut tx_pool,
